@@ -41,7 +41,7 @@ package auth
 // A token is accepted only by the verifier of the tenant it names; with
 // tenants configured the default verifier is disabled.
 //@ contract (*MultiTenantVerifier).Verify
-//@   serves C10 C09
+//@   serves C10 C09 C16
 //@   requires[fresh-step] !gInnerCalled
 //@   requires[env-default] v.defaultVerifier != nil
 //@   requires[env-tenants] forall t string :: t in v.tenantVerifiers ==> v.tenantVerifiers[t] != nil
